@@ -31,6 +31,7 @@ type Front struct {
 	ImportAtStart  bool    `json:"import_at_start,omitempty"`
 	HandlerReturns bool    `json:"handler_returns,omitempty"` // HandleErr returns instead of panicking
 	NoSkipConst    bool    `json:"no_skip_const,omitempty"`
+	XGoBuiltin     bool    `json:"xgo_builtin,omitempty"` // XGo-style configuration: untyped big types, overloaded println, builtin-type methods
 	Faults         []Fault `json:"faults,omitempty"`
 }
 
@@ -43,7 +44,9 @@ type Fault struct {
 	Arg  int    `json:"arg"`
 }
 
-var FaultKinds = []string{"discard_ref", "abort_stmt", "abort_init", "callex_err", "abort_header", "discard_reset", "vblock", "inline_closure"}
+const BuiltinPath = "github.com/goplus/gogen/internal/builtin"
+
+var FaultKinds = []string{"bigint_op", "discard_ref", "abort_stmt", "abort_init", "abort_endinit", "callex_err", "abort_header", "discard_reset", "vblock", "inline_closure"}
 
 // Env is per-process: export data located once with the real go command, corpus with
 // the results of the acceptance dry run.
@@ -81,6 +84,18 @@ func NewEnv(corpus bool) (*Env, error) {
 	ex, err := imp.Locate(goBin, os.TempDir(), pkgs...)
 	if err != nil {
 		return nil, err
+	}
+	if repo := os.Getenv("VERIF_REPO"); repo != "" {
+		// gogen's own XGo runtime package (untyped big types), from the tree under test
+		bx, err := imp.Locate(goBin, repo, BuiltinPath)
+		if err != nil {
+			return nil, err
+		}
+		for k, v := range bx {
+			if _, ok := ex[k]; !ok {
+				ex[k] = v
+			}
+		}
 	}
 	e := &Env{Exports: ex, Corpus: map[string]*CorpusEntry{}}
 	if corpus {
@@ -162,6 +177,7 @@ type Result struct {
 	FaultFired map[string]int
 	Discarded  []string // import paths referenced only through discarded operands
 	FirstFile  string   // the file that was current at the start (force-imports go there)
+	XGoBuiltin bool     // the XGo-style configuration was in effect
 }
 
 // Build compiles p under front f. Every build has its own file set and importer.
@@ -198,6 +214,23 @@ func (e *Env) build(p *prog.Program, f *Front, hooks *minicl.Hooks, ce *CorpusEn
 		return r
 	}
 	conf := &gogen.Config{Fset: fset, Importer: im, NoSkipConstant: f.NoSkipConst}
+	if f.XGoBuiltin {
+		if _, ok := e.Exports[BuiltinPath]; ok {
+			conf.NewBuiltin = func(pkg *gogen.Package, conf *gogen.Config) *types.Package {
+				fmtp := pkg.Import("fmt")
+				b := pkg.Import(BuiltinPath)
+				builtin := types.NewPackage("", "")
+				builtin.Scope().Insert(gogen.NewOverloadFunc(token.NoPos, builtin, "println", fmtp.Ref("Println")))
+				conf.UntypedBigInt = b.Ref("XGo_untyped_bigint").Type().(*types.Named)
+				conf.UntypedBigRat = b.Ref("XGo_untyped_bigrat").Type().(*types.Named)
+				conf.UntypedBigFloat = b.Ref("XGo_untyped_bigfloat").Type().(*types.Named)
+				gogen.InitBuiltin(pkg, builtin, conf)
+				pkg.BuiltinTI(types.Typ[types.String]).AddMethods(&gogen.BuiltinMethod{Name: "Capitalize", Fn: b.Ref("Capitalize")})
+				return builtin
+			}
+			r.XGoBuiltin = true
+		}
+	}
 	conf.HandleErr = func(err error) {
 		r.Diags = append(r.Diags, err.Error())
 		if !f.HandlerReturns {
@@ -412,6 +445,28 @@ func (in *injector) fire(c *minicl.Compiler, ft Fault) {
 			c.B.ResetInit()
 			c.B.ResetStmt()
 		}
+	case "abort_endinit":
+		// the initialiser itself is fine, EndInit fails (names vs. values). EndInit's deferred
+		// cleanup pops the operands and ends the initialiser context even then; the
+		// value-declaration context is only restored by ResetInit, which is what a front
+		// end calls for any failure between InitStart and the return of EndInit
+		vb := mod(ft.Arg, 2) == 1
+		if vb {
+			c.B.VBlock()
+		}
+		if recoverTo(func() {
+			c.B.DefineVarStart(token.NoPos, fmt.Sprintf("zzE%d", in.n), fmt.Sprintf("zzF%d", in.n))
+			in.n++
+			c.B.Val(1)
+			c.B.EndInit(1)
+		}) {
+			c.B.EndInitFailed()
+			c.B.ResetInit()
+			c.B.ResetStmt()
+		}
+		if vb {
+			c.B.End()
+		}
 	case "callex_err":
 		c.B.Val(c.Pkg.Import("strconv").Ref("Itoa"))
 		c.B.Val("x")
@@ -421,6 +476,18 @@ func (in *injector) fire(c *minicl.Compiler, ft Fault) {
 		} else {
 			c.B.ResetStmt()
 		}
+	case "bigint_op":
+		// not a fault: untyped big-number arithmetic (XGo configuration only)
+		if !in.r.XGoBuiltin {
+			in.r.FaultFired[ft.Kind]--
+			return
+		}
+		c.B.DefineVarStart(token.NoPos, fmt.Sprintf("zzBig%d", in.n))
+		in.n++
+		c.B.BigInt(int64(1000 + ft.Arg))
+		c.B.BigInt(int64(7 + ft.Arg))
+		c.B.BinaryOp([]token.Token{token.MUL, token.ADD, token.QUO, token.SUB}[mod(ft.Arg, 4)])
+		c.B.EndInit(1)
 	case "vblock":
 		// not a fault: XGo-only constructs that Go source cannot express
 		c.B.VBlock()
@@ -436,13 +503,26 @@ func (in *injector) fire(c *minicl.Compiler, ft Fault) {
 		sig := types.NewSignatureType(nil, nil, nil, types.NewTuple(x), types.NewTuple(ret), false)
 		c.B.DefineVarStart(token.NoPos, fmt.Sprintf("zzInline%d", in.n))
 		in.n++
-		c.B.Val(ft.Arg)
-		c.B.InlineStart(sig, 1)
-		c.B.Val(x)
-		c.B.Val(1)
-		c.B.BinaryOp(token.ADD)
-		c.B.Return(1)
-		c.B.End()
+		if mod(ft.Arg, 3) == 2 {
+			// with an operand of the enclosing expression below the call arguments
+			c.B.Val(100)
+			c.B.Val(ft.Arg)
+			c.B.InlineStart(sig, 1)
+			c.B.Val(x)
+			c.B.Val(1)
+			c.B.BinaryOp(token.ADD)
+			c.B.Return(1)
+			c.B.End()
+			c.B.BinaryOp(token.ADD)
+		} else {
+			c.B.Val(ft.Arg)
+			c.B.InlineStart(sig, 1)
+			c.B.Val(x)
+			c.B.Val(1)
+			c.B.BinaryOp(token.ADD)
+			c.B.Return(1)
+			c.B.End()
+		}
 		c.B.EndInit(1)
 	case "abort_header":
 		// a switch whose tag fails to build; recovery is End() on the half-open construct
